@@ -138,6 +138,15 @@ def main(tier, seed):
                 bad = sorted(set(t.get('name') for t in root.iter() if t.tag in (S.CORE + 'type', S.CORE + 'array') and t.get('name')
                                  and '.' in t.get('name') and t.get('name').split('.')[0] not in incs
                                  and t.get('name').split('.')[0] not in ('GLib', 'GObject', 'Gio')))
+                from giscanner import ast as giast
+                nsel = root.find(S.CORE + 'namespace')
+                local = set(e.get('name') or e.get(S.GLIB + 'name') for e in nsel) | set(giast.type_names) | {'none', 'gpointer', 'utf8', 'filename', 'va_list'}
+                bare = sorted(set(t.get('name') for t in root.iter() if t.tag in (S.CORE + 'type',) and t.get('name') and '.' not in t.get('name')
+                                  and t.get('name') not in local))
+                if bare:
+                    ck.failing_input('an unqualified type name in the written GIR is neither a fundamental type nor defined in the document\'s '
+                                     'namespace, so the reader gives it another meaning than the model that was written',
+                                     dict(document=what, gir=xml[:100000]), detail=bare[:5])
                 if bad:
                     ck.failing_input('a type name in the written GIR names a namespace the document neither is nor includes, so the '
                                      'reader gives it another meaning than the model that was written', dict(document=what, gir=xml[:100000]),
